@@ -491,14 +491,16 @@ void run_shape(unsigned const _world, wchar_t const _skip, Parser const &_parser
 #define C02_TYPED_CHUNK(i) bool chunk_##i(unsigned, wchar_t, std::string const &, top const &, std::string &);
 #include "c02_typed_table.inc"
 #undef C02_TYPED_CHUNK
+// hand-written: harness/c02_typed_rec.cpp (a recursive grammar, entry point grammar_parse_string)
+bool chunk_rec(unsigned, wchar_t, std::string const &, top const &, std::string &);
 
 inline std::string run(std::string const &_ce, std::string const &_sk, std::string const &_grammar, top const &_op)
 {
   unsigned world = 2;
   wchar_t skip = 0;
-  if (_ce[0] == 'c' && _sk == "E" && (_op.entry == 'p' || _op.entry == 'h'))
+  if (_ce[0] == 'c' && _sk == "E" && (_op.entry == 'p' || _op.entry == 'h' || _op.entry == 'g'))
     world = 0;
-  else if (_ce[0] == 'w' && _sk.size() == 2 && _sk[0] == 'L' && _op.entry == 'h')
+  else if (_ce[0] == 'w' && _sk.size() == 2 && _sk[0] == 'L' && (_op.entry == 'h' || _op.entry == 'g'))
   {
     world = 1;
     skip = decode_char<wchar_t>(_sk[1]);
@@ -507,6 +509,7 @@ inline std::string run(std::string const &_ce, std::string const &_sk, std::stri
     return "bad-op";
   std::string result{"bad-op"};
   chunk_fn const chunks[] = {
+      &chunk_rec,
 #define C02_TYPED_CHUNK(i) &chunk_##i,
 #include "c02_typed_table.inc"
 #undef C02_TYPED_CHUNK
